@@ -92,6 +92,11 @@ def gen(rng, passes):
         if rng.random() < 0.3:
             body.append(f"if {b['name']}.is_pressed():")
             body.append(f"    mon.write(\"held:{b['idx']}\")")
+        if rng.random() < 0.3:
+            body.append(f"spin{b['idx']} = 0")
+            body.append(f"while {b['name']}.is_pressed() and spin{b['idx']} < 2:")
+            body.append(f"    spin{b['idx']} += 1")
+            body.append(f"mon.write(spin{b['idx']})")
     for p in info["pots"]:
         for _ in range(rng.choice([1, 1, 2, 3])):
             body.append(f"mon.write(\"@A:{p['name']}\")")
